@@ -528,11 +528,17 @@ func (c *Conn) ResetPollerEvent() {
 	p := c.p
 	g := p.g
 	fd := c.fd
-	if g.isOneshot && !c.closed {
-		if len(c.writeList) == 0 {
-			_ = p.resetRead(fd)
-		} else {
-			_ = p.modWrite(fd)
+	if g.isOneshot {
+		// Choose and set the events under the lock: a concurrent Write may be
+		// caching data and setting the writing event right now.
+		c.mux.Lock()
+		if !c.closed {
+			if len(c.writeList) == 0 {
+				_ = p.resetRead(fd)
+			} else {
+				_ = p.modWrite(fd)
+			}
 		}
+		c.mux.Unlock()
 	}
 }
